@@ -243,3 +243,27 @@ declare void @llvm.dbg.value(metadata, metadata, metadata)
 !20 = !DIGlobalVariableExpression(var: !21, expr: !DIExpression())
 !21 = distinct !DIGlobalVariable(name: "arr", scope: !2, file: !3, line: 4, type: !18, isLocal: false, isDefinition: true)
 !22 = !DISubrange(lowerBound: !17, upperBound: !8, stride: !17)
+;;; ATOM md/attachments-repeated-kinds
+@vt = constant [2 x i8*] zeroinitializer, !type !0, !type !1, !foo !2
+@g = global i32 0, !dbg !3, !dbg !5
+declare !type !0 !type !1 void @d()
+define void @f() !type !0 !type !1 !foo !2 {
+  ret void
+}
+!llvm.module.flags = !{!6}
+!llvm.dbg.cu = !{!7}
+!0 = !{i64 0, !"typeid1"}
+!1 = !{i64 8, !"typeid2"}
+!2 = !{}
+!3 = !DIGlobalVariableExpression(var: !4, expr: !DIExpression())
+!4 = distinct !DIGlobalVariable(name: "g", scope: !7, file: !8, line: 1, type: !9, isLocal: false, isDefinition: true)
+!5 = !DIGlobalVariableExpression(var: !4, expr: !DIExpression(DW_OP_plus_uconst, 4))
+!6 = !{i32 2, !"Debug Info Version", i32 3}
+!7 = distinct !DICompileUnit(language: DW_LANG_C99, file: !8, producer: "p", isOptimized: false, runtimeVersion: 0, emissionKind: FullDebug, globals: !10)
+!8 = !DIFile(filename: "a.c", directory: "/")
+!9 = !DIBasicType(name: "int", size: 32, encoding: DW_ATE_signed)
+!10 = !{!3, !5}
+;;; ATOM md/di-derived-dwarf-address-space-zero
+!named = !{!0, !1}
+!0 = !DIDerivedType(tag: DW_TAG_pointer_type, baseType: null, size: 64, dwarfAddressSpace: 0)
+!1 = !DIDerivedType(tag: DW_TAG_pointer_type, baseType: null, size: 64, dwarfAddressSpace: 3)
